@@ -21,7 +21,7 @@ type scriptOpts struct {
 	visitText   bool // lines render visited_count/visited
 	enterProbe  bool // every node starts with <<call enter("title")>>
 	noCommands  bool
-	endWithJump int // n > 0: a node body ends with a jump in n of n+1 cases
+	endWithJump int                                 // n > 0: a node body ends with a jump in n of n+1 cases
 	random      bool                                // use dice/random/random_range in lines, sets and conditions
 	extraStmt   func(g *scriptGen, depth int) *Stmt // property-specific statements
 }
